@@ -22,7 +22,8 @@ use crate::runner::{Outcome, Summary, Violation};
 use crate::util;
 use crate::Ctx;
 use quil_rs::instruction::{
-    DefaultHandler, FrameIdentifier, Instruction, InstructionHandler, MemoryReference, PragmaArgument, Qubit, Target,
+    DefaultHandler, FrameIdentifier, Instruction, InstructionHandler, Label, MemoryReference, PragmaArgument, Qubit,
+    QubitPlaceholder, Target, TargetPlaceholder, Jump,
 };
 use quil_rs::quil::Quil;
 use quil_rs::Program;
@@ -40,12 +41,125 @@ pub const TABLES: [&str; 8] =
 
 // ------------------------------------------------------------------------------------ abstraction
 
+// Qubit placeholders have identity semantics (every QubitPlaceholder::default() is distinct, clones are equal).
+// The harness numbers them 1, 2, ... in order of creation within a history; the table is per thread and reset
+// at the start of every history, so the numbering is stable between a recording and its replay.
+thread_local! {
+    static PH: RefCell<Vec<QubitPlaceholder>> = const { RefCell::new(Vec::new()) };
+}
+const PH_BASE: u64 = 9000;
+
+pub fn ph_reset() {
+    PH.with(|t| t.borrow_mut().clear());
+}
+
+/// number of a placeholder (registered on first sight)
+pub fn ph_index(p: &QubitPlaceholder) -> usize {
+    PH.with(|t| {
+        let mut t = t.borrow_mut();
+        if let Some(k) = t.iter().position(|x| x == p) {
+            return k + 1;
+        }
+        t.push(p.clone());
+        t.len()
+    })
+}
+
+/// the k-th placeholder of the history (created on demand)
+pub fn ph_get(k: usize) -> QubitPlaceholder {
+    PH.with(|t| {
+        let mut t = t.borrow_mut();
+        while t.len() < k {
+            t.push(QubitPlaceholder::default());
+        }
+        t[k - 1].clone()
+    })
+}
+
+/// Parse an instruction text in which `{phK}` stands for the K-th qubit placeholder of the history.
+pub fn parse_instr(text: &str) -> Instruction {
+    if !text.contains("{ph") {
+        return util::instr(text);
+    }
+    let mut plain = String::new();
+    let mut rest = text;
+    while let Some(at) = rest.find("{ph") {
+        plain.push_str(&rest[..at]);
+        let tail = &rest[at + 3..];
+        let end = tail.find('}').expect("unterminated {ph");
+        let k: u64 = tail[..end].parse().expect("placeholder number");
+        plain.push_str(&(PH_BASE + k).to_string());
+        rest = &tail[end + 1..];
+    }
+    plain.push_str(rest);
+    let mut i = util::instr(&plain);
+    for q in i.get_qubits_mut() {
+        if let Qubit::Fixed(n) = q {
+            if *n > PH_BASE && *n < PH_BASE + 1000 {
+                *q = Qubit::Placeholder(ph_get((*n - PH_BASE) as usize));
+            }
+        }
+    }
+    i
+}
+
+/// Canonical text of an instruction: what quil-rs prints, with `{phK}` for qubit placeholders.
+pub fn canon_text(i: &Instruction) -> String {
+    let mut c = i.clone();
+    let mut any = false;
+    for q in c.get_qubits_mut() {
+        if let Qubit::Placeholder(p) = q {
+            let k = ph_index(p) as u64;
+            *q = Qubit::Fixed(PH_BASE + k);
+            any = true;
+        }
+    }
+    let t = c.to_quil_or_debug();
+    if !any {
+        return t;
+    }
+    // 9001 -> {ph1}: whole numeric tokens only
+    let b: Vec<char> = t.chars().collect();
+    let mut out = String::new();
+    let mut n = 0;
+    while n < b.len() {
+        if b[n].is_ascii_digit() && (n == 0 || !(b[n - 1].is_ascii_alphanumeric() || b[n - 1] == '.' || b[n - 1] == '_')) {
+            let mut m = n;
+            while m < b.len() && b[m].is_ascii_digit() {
+                m += 1;
+            }
+            let tok: String = b[n..m].iter().collect();
+            let v: u64 = tok.parse().unwrap_or(0);
+            let followed = m < b.len() && (b[m].is_ascii_alphanumeric() || b[m] == '.' || b[m] == '_');
+            if !followed && v > PH_BASE && v < PH_BASE + 1000 {
+                out.push_str(&format!("{{ph{}}}", v - PH_BASE));
+            } else {
+                out.push_str(&tok);
+            }
+            n = m;
+        } else {
+            out.push(b[n]);
+            n += 1;
+        }
+    }
+    out
+}
+
 /// canonical string of a qubit (set element)
 pub fn qcanon(q: &Qubit) -> String {
     match q {
         Qubit::Fixed(n) => format!("fixed:{n}"),
         Qubit::Variable(s) => format!("var:{s}"),
-        Qubit::Placeholder(p) => format!("ph:{p:?}"),
+        Qubit::Placeholder(p) => format!("ph:{}", ph_index(p)),
+    }
+}
+
+/// a plain gate application (no parameters, no modifiers): the model's template `g`
+pub fn gate_template(i: &Instruction) -> Option<Value> {
+    match i {
+        Instruction::Gate(g) if g.parameters.is_empty() && g.modifiers.is_empty() => Some(json!({
+            "name": g.name, "qubits": g.qubits.iter().map(|q| qabs_of_canon(&qcanon(q))).collect::<Vec<_>>()})),
+        _ => None,
     }
 }
 
@@ -62,7 +176,7 @@ pub fn qabs_of_canon(c: &str) -> Value {
     match t {
         "fixed" => json!({"t": "fixed", "n": rest.parse::<u64>().unwrap_or(0)}),
         "var" => json!({"t": "var", "s": rest}),
-        _ => json!({"t": "ph", "id": rest}),
+        _ => json!({"t": "ph", "id": rest.parse::<u64>().unwrap_or(0)}),
     }
 }
 
@@ -178,7 +292,8 @@ pub struct SymRec {
 impl SymRec {
     pub fn abs(&self) -> Value {
         json!({"id": self.id, "k": self.k, "key": self.key, "text": self.canon,
-               "qs": self.qs.iter().map(|c| qabs_of_canon(c)).collect::<Vec<_>>()})
+               "qs": self.qs.iter().map(|c| qabs_of_canon(c)).collect::<Vec<_>>(),
+               "g": util::opt_json(gate_template(&self.instr))})
     }
 }
 
@@ -193,11 +308,13 @@ pub struct Sym {
 
 impl Sym {
     pub fn intern_instr(&mut self, id: Option<&str>, instr: Instruction) -> String {
-        let canon = instr.to_quil_or_debug();
+        let canon = canon_text(&instr);
         if let Some(have) = self.by_text.get(&canon) {
             return have.clone();
         }
+        // the identity of a plain gate application is its text (the model computes resolved gates itself)
         let id = match id {
+            _ if gate_template(&instr).is_some() => canon.clone(),
             Some(s) => s.to_string(),
             None => {
                 self.fresh += 1;
@@ -218,7 +335,7 @@ impl Sym {
         if self.recs.contains_key(&id) {
             return id;
         }
-        let instr = util::instr(&util::s(v, "text"));
+        let instr = parse_instr(&util::s(v, "text"));
         let got = self.intern_instr(Some(&id), instr);
         let rec = &self.recs[&got];
         let want_qs: BTreeSet<String> = util::arr(v, "qs").iter().map(qcanon_of_abs).collect();
@@ -324,6 +441,8 @@ pub struct StepInfo {
     pub err: Option<String>,
     /// name of a supplied-listing operation
     pub name: Option<String>,
+    /// resolve_placeholders: the qubit resolutions the real code made (placeholder number, fixed index)
+    pub map: Vec<(usize, u64)>,
 }
 
 fn is_cal_kind(k: &str) -> bool {
@@ -351,7 +470,7 @@ impl Machine {
     pub fn apply(&mut self, op: &Value, sym: &mut Sym, o: &mut Outcome) -> StepInfo {
         let ev = util::s(op, "ev");
         let dst = ri(&util::s(op, "dst"));
-        let mut info = StepInfo { ev: ev.clone(), dst, concat: None, pull_apart: false, err: None, name: None };
+        let mut info = StepInfo { ev: ev.clone(), dst, concat: None, pull_apart: false, err: None, name: None, map: vec![] };
         let reg = |k: &str| ri(&util::s(op, k));
         match ev.as_str() {
             "New" => {
@@ -377,7 +496,19 @@ impl Machine {
             }
             "FromInstructions" => {
                 let ids = sym.resolve_seq(&op["is"], o);
-                self.p[dst] = Program::from_instructions(ids.iter().map(|id| sym.instr(id)).collect());
+                let instrs: Vec<Instruction> = ids.iter().map(|id| sym.instr(id)).collect();
+                // the three public constructors from a list of instructions
+                self.p[dst] = match op.get("via").and_then(|v| v.as_str()) {
+                    Some("from_vec") => Program::from(instrs),
+                    Some("from_str") => {
+                        let text: Option<String> = instrs.iter().map(|i| i.to_quil().ok().map(|t| t + "\n")).collect();
+                        match text {
+                            Some(t) => util::program(&t),
+                            None => Program::from(instrs),
+                        }
+                    }
+                    _ => Program::from_instructions(instrs),
+                };
                 self.set_ghost(dst, ids, false, false);
             }
             "Concat" | "AddAssign" => {
@@ -416,7 +547,27 @@ impl Machine {
                 self.set_ghost(dst, l, true, false);
             }
             "Resolve" => {
-                self.p[dst].resolve_placeholders();
+                let before: Vec<Instruction> = self.p[dst].body_instructions().cloned().collect();
+                if op.get("mode").and_then(|v| v.as_str()) == Some("custom") {
+                    let map: HashMap<QubitPlaceholder, u64> = op["map"]
+                        .as_array()
+                        .map(|a| a.iter().map(|e| (ph_get(util::u(e, "ph") as usize), util::u(e, "n"))).collect())
+                        .unwrap_or_default();
+                    let targets = self.p[dst].default_target_resolver();
+                    self.p[dst].resolve_placeholders_with_custom_resolvers(targets, Box::new(move |p| map.get(p).copied()));
+                } else {
+                    self.p[dst].resolve_placeholders();
+                }
+                for (b, a) in before.iter().zip(self.p[dst].body_instructions()) {
+                    for (qb, qa) in b.get_qubits().into_iter().zip(a.get_qubits()) {
+                        if let (Qubit::Placeholder(p), Qubit::Fixed(n)) = (qb, qa) {
+                            let k = ph_index(p);
+                            if !info.map.iter().any(|(x, _)| *x == k) {
+                                info.map.push((k, *n));
+                            }
+                        }
+                    }
+                }
                 let mut l = def_ids(&self.log[dst], sym);
                 let body: Vec<Instruction> = self.p[dst].body_instructions().cloned().collect();
                 l.extend(sym.ids_of(&body));
@@ -436,6 +587,13 @@ impl Machine {
                 info.name = Some(name.clone());
                 let res: Result<Program, String> = match name.as_str() {
                     "ExpandCalibrations" => self.p[a].expand_calibrations().map_err(|e| e.to_string()),
+                    "ExpandCalibrationsWithSourceMap" => {
+                        self.p[a].expand_calibrations_with_source_map().map(|(p, _)| p).map_err(|e| e.to_string())
+                    }
+                    "ExpandDefGateSequencesWithSourceMap" => {
+                        self.p[a].expand_defgate_sequences_with_source_map(|_| true).map(|(p, _)| p).map_err(|e| e.to_string())
+                    }
+                    "Dagger" => self.p[a].dagger().map_err(|e| e.to_string()),
                     "Simplify" => self.p[a].simplify(&DefaultHandler).map_err(|e| e.to_string()),
                     "WrapInLoop" => {
                         let n = op.get("n").and_then(|x| x.as_u64()).unwrap_or(2).max(2) as u32;
@@ -450,7 +608,7 @@ impl Machine {
                     Ok(p) => {
                         self.p[dst] = p;
                         let l = sym.ids_of(&self.p[dst].to_instructions());
-                        let taint = name != "ExpandDefGateSequences";
+                        let taint = matches!(name.as_str(), "ExpandCalibrations" | "ExpandCalibrationsWithSourceMap" | "Simplify" | "WrapInLoop");
                         self.set_ghost(dst, l, taint, false);
                         self.opaque[dst] = ev == "Opaque";
                     }
@@ -606,11 +764,28 @@ fn frames_matched_by_reset(p: &Program) -> (BTreeSet<String>, BTreeSet<String>) 
     }
 }
 
+/// C10 with label placeholders: append LABEL/JUMP on one target placeholder, resolve, judge the cache and ==
+pub fn label_probe(p: &Program) -> Option<Violation> {
+    let mut q = p.clone();
+    let t = Target::Placeholder(TargetPlaceholder::new("probe".into()));
+    q.add_instruction(Instruction::Label(Label { target: t.clone() }));
+    q.add_instruction(Instruction::Jump(Jump { target: t }));
+    q.resolve_placeholders();
+    if let Some((model, used)) = used_failure(&q) {
+        return Some(Violation::new("get_used_qubits", used_json(&model), used_json(&used)));
+    }
+    let rebuilt = Program::from_instructions(q.to_instructions());
+    if rebuilt != q {
+        return Some(Violation::new("== of two programs with the same listing", json!(true), json!(false)));
+    }
+    None
+}
+
 fn listing_texts(p: &Program) -> Vec<String> {
-    p.to_instructions().iter().map(|i| i.to_quil_or_debug()).collect()
+    p.to_instructions().iter().map(canon_text).collect()
 }
 fn body_texts(p: &Program) -> Vec<String> {
-    p.body_instructions().map(|i| i.to_quil_or_debug()).collect()
+    p.body_instructions().map(canon_text).collect()
 }
 fn used_of(p: &Program) -> BTreeSet<String> {
     p.get_used_qubits().iter().map(qcanon).collect()
@@ -627,7 +802,7 @@ pub fn concat_failures(a: &Program, b: &Program, c: &Program, judge_used: bool) 
     let (ai, bi, ci) = (a.to_instructions(), b.to_instructions(), c.to_instructions());
     for t in TABLES {
         let of = |is: &[Instruction]| -> Vec<(String, String)> {
-            is.iter().filter(|i| kind_of(i) == t).map(|i| (key_of(i), i.to_quil_or_debug())).collect()
+            is.iter().filter(|i| kind_of(i) == t).map(|i| (key_of(i), canon_text(i))).collect()
         };
         let (ta, tb, tc) = (of(&ai), of(&bi), of(&ci));
         let mut want: HashMap<String, String> = ta.iter().cloned().collect();
@@ -652,7 +827,7 @@ pub fn concat_failures(a: &Program, b: &Program, c: &Program, judge_used: bool) 
 fn same_program(x: &Program, y: &Program) -> bool {
     let tables = |p: &Program| -> Vec<HashMap<String, String>> {
         let is = p.to_instructions();
-        TABLES.iter().map(|t| is.iter().filter(|i| kind_of(i) == *t).map(|i| (key_of(i), i.to_quil_or_debug())).collect()).collect()
+        TABLES.iter().map(|t| is.iter().filter(|i| kind_of(i) == *t).map(|i| (key_of(i), canon_text(i))).collect()).collect()
     };
     x == y && body_texts(x) == body_texts(y) && tables(x) == tables(y) && used_of(x) == used_of(y)
 }
@@ -720,6 +895,7 @@ pub fn texts_in_fresh_process(pid: &str, history: &Value) -> Option<Vec<String>>
 }
 
 fn final_texts(history: &Value) -> Vec<String> {
+    ph_reset();
     let mut sym = Sym::default();
     let mut o = Outcome::ok(false);
     load_sym(history, &mut sym, &mut o);
@@ -818,12 +994,13 @@ pub fn replay(ctx: &Ctx, case: &Value) -> Outcome {
         // development aid: canonical text / kind / key / qubits of instruction texts
         let mut o = Outcome::ok(false);
         for t in util::arr(case, "texts") {
-            let i = util::instr(t.as_str().unwrap_or(""));
+            let i = parse_instr(t.as_str().unwrap_or(""));
             let (q, _, _) = qubit_band(std::slice::from_ref(&i));
-            o.diverge(json!({"text": i.to_quil_or_debug(), "k": kind_of(&i), "key": key_of(&i), "qs": q}).to_string());
+            o.diverge(json!({"text": canon_text(&i), "k": kind_of(&i), "key": key_of(&i), "qs": q}).to_string());
         }
         return o;
     }
+    ph_reset();
     let mut o = Outcome::ok(false);
     let mut sym = Sym::default();
     load_sym(&history, &mut sym, &mut o);
@@ -1004,6 +1181,16 @@ pub fn replay(ctx: &Ctx, case: &Value) -> Outcome {
         let _ = before;
     }
 
+    // C10: label placeholders do not matter: resolving a LABEL/JUMP on a target placeholder appended to either
+    // register rebuilds the cache, which must then be exact whatever the register went through
+    if pid == "C10" {
+        for r in 0..2 {
+            if let Some(v) = label_probe(&m.p[r]) {
+                o.violate(v.note(format!("register {} after the history, plus LABEL/JUMP on a target placeholder, resolve_placeholders()", RN[r])));
+            }
+        }
+        o.sub_evaluations = 2;
+    }
     // C08: the same history again in this process and in a fresh one: byte-identical text
     if pid == "C08" {
         let first: Vec<String> = m.p.iter().map(|p| p.to_quil().unwrap_or_default()).collect();
@@ -1126,6 +1313,15 @@ fn generator(pid: &str) -> Gen {
         for s in ["PULSE 0 \"rf\" flat(duration: 1.0, iq: 1.0)", "CAPTURE 2 \"ro\" flat(duration: 1.0, iq: 1.0) ro[0]", "RAW-CAPTURE 1 \"ro\" 1.0 theta[0]"] {
             body.push(s.into());
         }
+        // gates on three distinct qubit placeholders, alone and mixed with fixed qubits; and placeholders inside
+        // calibration bodies (which resolution does not touch)
+        for s in ["X {ph1}", "Y {ph2}", "H {ph3}", "CNOT {ph1} 0", "CNOT 1 {ph2}", "CNOT {ph1} {ph2}", "CZ {ph3} {ph1}", "X {ph1}", "CNOT {ph2} 3"] {
+            body.push(s.into());
+        }
+        for s in ["DEFCAL X 0:\n    Y {ph3}", "DEFCAL CZ 0 1:\n    CNOT {ph1} 0", "DEFCAL X 1:\n    Y 1\n    H {ph2}"] {
+            cal.push(s.into());
+        }
+        mcal.push("DEFCAL MEASURE 0 addr:\n    X {ph3}".into());
     }
     Gen { decl, frame, wave, cal, mcal, gate, circ, ext, body }
 }
@@ -1156,11 +1352,12 @@ struct Recorder {
 
 impl Recorder {
     fn new() -> Self {
+        ph_reset();
         Recorder { sym: Sym::default(), m: Machine::default(), events: vec![], kf_hits: 0, ops: vec![] }
     }
 
     fn sid(&mut self, text: &str) -> String {
-        self.sym.intern_instr(None, util::instr(text))
+        self.sym.intern_instr(None, parse_instr(text))
     }
 
     /// run one mutation on the real registers and record it with its projected post-state
@@ -1179,9 +1376,10 @@ impl Recorder {
         if op["ev"] == "Supplied" {
             op["listing"] = json!(real.listing);
         }
-        if op["ev"] == "Resolve" {
-            let body: Vec<Instruction> = self.m.p[dst].body_instructions().cloned().collect();
-            op["body"] = json!(self.sym.ids_of(&body));
+        if op["ev"] == "Resolve" && op.get("mode").and_then(|v| v.as_str()) != Some("custom") {
+            // the default resolver's choices are the real code's
+            op["mode"] = json!("default");
+            op["map"] = json!(info.map.iter().map(|(k, n)| json!({"ph": k, "n": n})).collect::<Vec<_>>());
         }
         // known finding 16: the harness recognises the exact shape and says so in the record, the trace
         // specification then follows the as-built deviation for this step only
@@ -1222,7 +1420,7 @@ impl Recorder {
             let mut at = 0usize;
             let mut ordered = real.text.is_some();
             for i in p.to_instructions() {
-                match text[at..].find(&i.to_quil_or_debug()) {
+                match text[at..].find(&canon_text(&i)) {
                     Some(k) => at += k + 1,
                     None => {
                         ordered = false;
@@ -1338,10 +1536,12 @@ pub fn drive(ctx: &Ctx) -> Summary {
                         60..=64 => rec.mutate(json!({"ev": "AddAssign", "dst": x, "b": y})),
                         65..=68 => rec.mutate(json!({"ev": "CloneWithoutBody", "dst": x, "a": y})),
                         69..=71 => rec.mutate(json!({"ev": "Clone", "dst": x, "a": y})),
-                        72..=75 => rec.mutate(json!({"ev": "Resolve", "dst": x})),
+                        72..=74 => rec.mutate(json!({"ev": "Resolve", "mode": "default", "dst": x})),
+                        75 => rec.mutate(json!({"ev": "Supplied", "name": "Dagger", "dst": x, "a": y})),
                         76..=79 => {
                             let ids = project(&rec.m.p[ri(y)], &mut rec.sym).listing;
-                            rec.mutate(json!({"ev": "FromInstructions", "dst": x, "is": ids}))
+                            let via = ["from_instructions", "from_vec", "from_str"][rng.gen_range(0..3)];
+                            rec.mutate(json!({"ev": "FromInstructions", "via": via, "dst": x, "is": ids}))
                         }
                         80..=83 => {
                             let drop: Vec<&str> = match rng.gen_range(0..3) {
@@ -1351,15 +1551,30 @@ pub fn drive(ctx: &Ctx) -> Summary {
                             };
                             rec.mutate(json!({"ev": "Filter", "dst": x, "a": y, "drop": drop}))
                         }
-                        84..=87 => rec.mutate(json!({"ev": "Supplied", "name": "ExpandCalibrations", "dst": x, "a": y})),
+                        84..=87 => {
+                            let name = if rng.gen_bool(0.5) { "ExpandCalibrations" } else { "ExpandCalibrationsWithSourceMap" };
+                            rec.mutate(json!({"ev": "Supplied", "name": name, "dst": x, "a": y}))
+                        }
                         88..=90 => rec.mutate(json!({"ev": "Supplied", "name": "Simplify", "dst": x, "a": y})),
                         91..=93 => match rng.gen_range(0..4u64) {
                             0 => rec.mutate(json!({"ev": "CloneWithoutBody", "dst": x, "a": y, "via": "wrap_in_loop"})),
                             1 => rec.mutate(json!({"ev": "Clone", "dst": x, "a": y, "via": "wrap_in_loop"})),
                             k => rec.mutate(json!({"ev": "Supplied", "name": "WrapInLoop", "n": k, "dst": x, "a": y})),
                         },
-                        94..=96 => rec.mutate(json!({"ev": "Supplied", "name": "ExpandDefGateSequences", "dst": x, "a": y})),
-                        97 => rec.mutate(json!({"ev": "New", "dst": x})),
+                        94..=95 => {
+                            let name = if rng.gen_bool(0.5) { "ExpandDefGateSequences" } else { "ExpandDefGateSequencesWithSourceMap" };
+                            rec.mutate(json!({"ev": "Supplied", "name": name, "dst": x, "a": y}))
+                        }
+                        96..=97 => {
+                            // a custom qubit resolver: a random partial map over the history's placeholders
+                            let mut map: Vec<Value> = vec![];
+                            for k in 1..=3u64 {
+                                if rng.gen_bool(0.5) {
+                                    map.push(json!({"ph": k, "n": rng.gen_range(0..8u64)}));
+                                }
+                            }
+                            rec.mutate(json!({"ev": "Resolve", "mode": "custom", "dst": x, "map": map}))
+                        }
                         _ => {
                             let k = rng.gen_range(0..4);
                             let ids: Vec<String> = (0..k).map(|_| rec.sid(&gen.pick(&mut rng, 40))).collect();
